@@ -38,6 +38,7 @@ fn main() {
         let res = catch_unwind(AssertUnwindSafe(|| match prop.as_str() {
             "c10" => c10::run(&case),
             "c17lex" => c17::lex(&case),
+            "c17tree" => c17::tree(&case),
             "lex" => lang::lex(&case),
             "internsched" => lang::intern_schedule(&case),
             "libhist" => root::library_history(&case),
